@@ -140,8 +140,10 @@ class TransactionManager:
 
     def error_transaction(self, exc):
         self._transition_to(TransactionState.ABORTABLE_ERROR)
-        self._txn_partitions.clear()
-        self._txn_consumer_group = None
+        # NOTE: partitions and the consumer group already added to the
+        # transaction are kept, so that the abort, that must follow, sends
+        # EndTxn and the coordinator does not carry them into the next
+        # transaction. `complete_transaction()` clears them.
         self._pending_txn_partitions.clear()
         for _, _, fut in self._pending_txn_offsets:
             fut.set_exception(exc)
